@@ -169,9 +169,13 @@ def deaggregate (mk : Tx) (txs : List Tx) : Except Err Tx :=
   match aggregate txs with
   | .error e => .error e
   | .ok a =>
+    let kers := (mk.kers.filter (fun k => !a.kers.contains k)).eraseDups
+    -- nothing new in `mk`: its offset equals the offset of the aggregate of `txs`, the difference
+    -- is the zero scalar and `secp.blind_sum` fails (`Error::Secp(InvalidSecretKey)`)
+    if kers.isEmpty then .error "InvalidTx:Secp" else
     .ok { ins := (mk.ins.filter (fun i => !a.ins.contains i)).eraseDups,
           outs := (mk.outs.filter (fun o => !a.outs.contains o)).eraseDups,
-          kers := (mk.kers.filter (fun k => !a.kers.contains k)).eraseDups,
+          kers := kers,
           tags := keptTags mk.tags }
 
 /-! ## validation -/
@@ -209,21 +213,39 @@ def Tx.validate (c : Ctx) (w : Weighting) (t : Tx) : Option Err :=
   else if t.ins.any (fun i => t.outs.contains i) then some "InvalidTx:CutThrough"
   else if t.tags.contains "rproof" then some "InvalidTx:Secp"
   else if t.tags.contains "sig" then some "InvalidTx:IncorrectSignature"
-  else if t.kers.isEmpty || (t.ins.isEmpty && t.outs.isEmpty && t.fee == 0) then some "InvalidTx:Secp"
+  else if t.kers.isEmpty || (t.ins.isEmpty && t.outs.isEmpty && t.fee == 0) then some "InvalidTx:Committed"
   else if t.tags.contains "sum" || !t.balanced c.outs then some "InvalidTx:Committed"
   else none
 
+/-- the NRD part of `Chain::validate_tx` (`validate_tx_kernels` → `apply_kernels` at the height of
+the NEXT block on the BODY head → `apply_kernel_rules`): some NRD kernel repeats an excess last
+seen on the chain fewer than its relative height blocks before that next block -/
+def nrdTooRecent (c : Ctx) (t : Tx) : Bool :=
+  t.kers.any fun k => match k.ker with
+    | .nrd _ rel ex => match c.head.nrd.find? (·.1 == ex) with
+      | some (_, hPrev) => decide (c.head.height + 1 < hPrev + rel)
+      | none => false
+    | _ => false
+
 /-- `Chain::validate_tx` through the adapter: no output duplicates an unspent one, every input
-is unspent (both surface as `PoolError::Other`) -/
+is unspent (both surface as `PoolError::Other`), NRD relative heights -/
 def chainValidateTx (c : Ctx) (t : Tx) : Option Err :=
   if t.outs.any c.head.has then some "Other"
   else if !(t.ins.all c.head.has) then some "Other"
+  else if nrdTooRecent c t then some "NRDKernelRelativeHeight"
   else none
+
+/-- `impl From<transaction::Error> for PoolError` (what `?` applies inside pool.rs): a duplicate NRD
+excess inside an aggregate surfaces as `PoolError::NRDKernelRelativeHeight`, everything else as
+`InvalidTx(..)`.  (`TransactionPool::add_to_pool` maps the standalone validation with
+`map_err(PoolError::InvalidTx)` instead.) -/
+def viaPoolError (e : Err) : Err :=
+  if e = "InvalidTx:InvalidNRDRelativeHeight" then "NRDKernelRelativeHeight" else e
 
 /-- `Pool::validate_raw_tx` (`apply_tx_to_block_sums` adds nothing in the opening model) -/
 def validateRawTx (c : Ctx) (w : Weighting) (t : Tx) : Option Err :=
   match t.validate c w with
-  | some e => some e
+  | some e => some (viaPoolError e)
   | none => chainValidateTx c t
 
 /-! ## `Pool` (pool/src/pool.rs) -/
@@ -261,7 +283,7 @@ def Pool.allAggregate (c : Ctx) (p : Pool) (extra : Option Tx) : Except Err (Opt
   | .error e => .error e
   | .ok a =>
     match a.validate c .noLimit with
-    | some e => .error e
+    | some e => .error (viaPoolError e)
     | none => .ok (some a)
 
 /-- `Pool::reconcile_block`: drop entries sharing a kernel or an input with the block -/
@@ -273,7 +295,10 @@ def validateRawTxs (c : Ctx) (w : Weighting) (extra : Option Tx) : List Tx → L
   | [], valid => .ok valid
   | t :: rest, valid =>
     match aggregate (extra.toList ++ valid ++ [t]) with
-    | .error e => .error e
+    -- a candidate that cannot be combined with those selected so far (e.g. it spends an output one
+    -- of them spends) is skipped like one that fails validation (pool.rs since 611fc1746; before,
+    -- the error escaped with `?` and the whole mineable set failed)
+    | .error _ => validateRawTxs c w extra rest valid
     | .ok a =>
       match validateRawTx c w a with
       | none => validateRawTxs c w extra rest (valid ++ [t])
